@@ -1746,3 +1746,23 @@ pub fn map_program_lits(p: &Program, f: &dyn Fn(&Lit) -> Lit) -> Program {
 pub fn neutralize_zero_led(p: &Program) -> Program {
     map_program_lits(p, &canon_lit)
 }
+
+/// The same program with its helpers moved into an include file: returns (main text, include text).
+pub fn render_program_split(p: &Program, d: Dialect, inc_name: &str) -> (String, String) {
+    let mut main = format!("(mod {}", p.params.render());
+    if let Some(sig) = d.sigil() {
+        main.push_str(&format!("\n  (include {sig})"));
+    }
+    main.push_str(&format!("\n  (include {inc_name})"));
+    main.push_str("\n  ");
+    main.push_str(&render_expr(&p.body, d));
+    main.push_str("\n)\n");
+    let mut inc = String::from("(\n");
+    for h in p.helpers.iter() {
+        inc.push_str("  ");
+        inc.push_str(&render_helper(h, d));
+        inc.push('\n');
+    }
+    inc.push_str(")\n");
+    (main, inc)
+}
